@@ -54,9 +54,26 @@ pub enum EvFault {
     /// a PWB board that is not installed for this run sends pad data
     BoardNotInstalled,
     UnknownBank { name: String },
-    MalformedWire { i: usize },
-    MalformedPad { msg: usize },
-    MalformedTrg,
+    /// payload of wire bank i malformed in one of several CRC/baseline-valid ways (`variant`)
+    MalformedWire {
+        i: usize,
+        #[serde(default)]
+        variant: u8,
+    },
+    MalformedPad {
+        msg: usize,
+        #[serde(default)]
+        variant: u8,
+    },
+    MalformedTrg {
+        #[serde(default)]
+        variant: u8,
+    },
+    /// The PWB packet inside the chunks of message `msg` names another board and/or chip than its
+    /// chunk headers and bank names do (the identity of message `other`, or of the next installed
+    /// board): bank name and payload disagree on the board / two messages claim the same pads.
+    /// `short`: the foreign packet carries no more samples than the delay (leaves its slots empty).
+    PadPayloadIdentity { msg: usize, other: usize, board: bool, chip: bool, short: bool },
 }
 impl EvFault {
     pub fn kind(&self) -> &'static str {
@@ -80,7 +97,9 @@ impl EvFault {
             EvFault::UnknownBank { .. } => "unknown_bank",
             EvFault::MalformedWire { .. } => "malformed_wire",
             EvFault::MalformedPad { .. } => "malformed_pad",
-            EvFault::MalformedTrg => "malformed_trg",
+            EvFault::MalformedTrg { .. } => "malformed_trg",
+            EvFault::PadPayloadIdentity { short: false, .. } => "pad_payload_identity",
+            EvFault::PadPayloadIdentity { short: true, .. } => "pad_payload_identity_short",
         }
     }
 }
@@ -384,24 +403,73 @@ pub fn apply_fault(ev: &mut BuiltEvent, f: &EvFault, run: u32) -> bool {
             ev.banks.insert(ev.banks.len() / 2, BankSpec { name: name.clone(), content: Content::Opaque(vec![1, 2, 3, 4]) });
             true
         }
-        EvFault::MalformedWire { i } => {
+        EvFault::MalformedWire { i, variant } => {
             if nw == 0 {
                 return false;
             }
             let bi = ev.wire_idx[i % nw];
+            let mut opaque: Option<Vec<u8>> = None;
             if let Content::Adc(a) = &mut ev.banks[bi].content {
-                a.baseline = Some(floor_plus_one(a));
+                match variant {
+                    0 => a.baseline = Some(floor_plus_one(a)),
+                    1 => a.mac[5] ^= 0x80,
+                    2 => a.mac[0] ^= 0x80,
+                    3 => a.zero12 = 1,
+                    4 => a.version = 4,
+                    5 => a.ptype = 2,
+                    6 => a.module = 8,
+                    7 => {
+                        a.keep_bit = true;
+                        a.keep_last = 33;
+                    }
+                    8 => a.requested_samples = a.requested_samples.wrapping_add(3),
+                    9 => {
+                        let mut b = a.encode();
+                        b.pop();
+                        opaque = Some(b);
+                    }
+                    _ => a.channel = 160,
+                }
+                if boards::adc_boards().iter().any(|b| b.mac == a.mac) && matches!(variant, 1 | 2) {
+                    return false;
+                }
+            }
+            if let Some(b) = opaque {
+                ev.banks[bi].content = Content::Opaque(b);
             }
             true
         }
-        EvFault::MalformedPad { msg } => {
+        EvFault::MalformedPad { msg, variant } => {
             if ev.pad_idx.is_empty() {
                 return false;
             }
             let mi = msg % ev.pad_idx.len();
-            // re-chunk a payload with a bad end marker under the same ids
+            // re-chunk a malformed payload (CRCs valid) under the same chunk ids
             let mut spec = ev.pad_msgs[mi].spec.clone();
-            spec.end_marker = [0xCC, 0xCC, 0xCC, 0xCB];
+            match variant {
+                0 => spec.end_marker = [0xCC, 0xCC, 0xCC, 0xCB],
+                1..=6 => {
+                    spec.mac[(*variant - 1) as usize] ^= 0x80;
+                    if boards::pwb_boards().iter().any(|b| b.mac == spec.mac) {
+                        return false;
+                    }
+                }
+                7 => spec.version = 3,
+                8 => spec.compression = 1,
+                9 => spec.trigger = 2,
+                10 => spec.zero18 = 1,
+                11 => spec.last_sca_cell = 512,
+                12 => {
+                    let Some(c) = spec.channels.first_mut() else { return false };
+                    c.count_field = Some(spec.requested_samples.wrapping_add(1));
+                }
+                13 => {
+                    let mut m = daqmodel::enc::mask_of(spec.channels.iter().map(|c| c.readout_index));
+                    m[9] |= 0x80;
+                    spec.sent_mask = Some(m);
+                }
+                _ => spec.chip_char = b'E',
+            }
             let first = ev.pad_idx[mi][0];
             let Content::Chunk(c0) = ev.banks[first].content.clone() else { return false };
             let size = c0.payload.len().max(1);
@@ -415,9 +483,85 @@ pub fn apply_fault(ev: &mut BuiltEvent, f: &EvFault, run: u32) -> bool {
             ev.pad_msgs[mi].spec = spec;
             true
         }
-        EvFault::MalformedTrg => {
+        EvFault::PadPayloadIdentity { msg, other, board, chip, short } => {
+            if ev.pad_idx.is_empty() || (!*board && !*chip) {
+                return false;
+            }
+            let n = ev.pad_idx.len();
+            let mi = msg % n;
+            let oi = other % n;
+            let mut spec = ev.pad_msgs[mi].spec.clone();
+            let (omac, ochip) = if oi != mi {
+                (ev.pad_msgs[oi].spec.mac, ev.pad_msgs[oi].spec.chip_char)
+            } else {
+                let maps = run_maps(run);
+                let cur = ev.pad_msgs[mi].board;
+                let cands: Vec<usize> = if maps.pwb_installed.is_empty() { (0..boards::pwb_boards().len()).collect() } else { maps.pwb_installed.clone() };
+                let nb = cands[(cands.iter().position(|&b| b == cur).unwrap_or(0) + 1) % cands.len()];
+                (boards::pwb_boards()[nb].mac, b'A' + (ev.pad_msgs[mi].chip + 1) % 4)
+            };
+            if *board {
+                spec.mac = omac;
+            }
+            if *chip {
+                spec.chip_char = ochip;
+            }
+            if spec.mac == ev.pad_msgs[mi].spec.mac && spec.chip_char == ev.pad_msgs[mi].spec.chip_char {
+                return false;
+            }
+            if *short {
+                let req = 90u16;
+                spec.requested_samples = req;
+                for c in spec.channels.iter_mut() {
+                    c.samples.resize(req as usize, 1725);
+                }
+            }
+            // re-chunk under the ORIGINAL chunk identity (device id, chip) and bank names
+            let first = ev.pad_idx[mi][0];
+            let Content::Chunk(c0) = ev.banks[first].content.clone() else { return false };
+            let name = ev.banks[first].name.clone();
+            let payload = spec.encode();
+            let new = chunk_message(c0.device_id, c0.chip, c0.packet_seq, c0.channel_seq, &payload, 65535);
+            for &bi in &ev.pad_idx[mi] {
+                ev.banks[bi] = BankSpec { name: "TRBA".into(), content: Content::Opaque(vec![]) };
+            }
+            for c in new {
+                ev.banks.push(BankSpec { name: name.clone(), content: Content::Chunk(c) });
+            }
+            ev.pad_msgs[mi].spec = spec;
+            true
+        }
+        EvFault::MalformedTrg { variant } => {
+            let mut opaque: Option<Vec<u8>> = None;
             if let Content::Trg(t) = &mut ev.banks[ev.trg_idx].content {
-                t.footer = Some(0x7000_0000 | (t.output & 0x0FFF_FFFF));
+                match variant {
+                    0 => t.footer = Some(0x7000_0000 | (t.output & 0x0FFF_FFFF)),
+                    1 => t.header = Some(0x9000_0000 | (t.output & 0x0FFF_FFFF)),
+                    2 => t.w12 = 1,
+                    3 => t.w9_reserved = 1,
+                    4 => {
+                        if t.output == 0 {
+                            return false;
+                        }
+                        t.scaledown = t.output - 1;
+                    }
+                    5 => {
+                        if t.drift_veto == 0 {
+                            return false;
+                        }
+                        t.input = t.drift_veto - 1;
+                    }
+                    6 => t.udp_counter |= 0x8000_0000,
+                    7 => {
+                        let mut b = t.encode();
+                        b.truncate(76);
+                        opaque = Some(b);
+                    }
+                    _ => t.footer = Some(0xE000_0000 | ((t.output ^ 1) & 0x0FFF_FFFF)),
+                }
+            }
+            if let Some(b) = opaque {
+                ev.banks[ev.trg_idx].content = Content::Opaque(b);
             }
             true
         }
@@ -451,9 +595,19 @@ pub fn all_faults(r: &mut Rng) -> Vec<EvFault> {
         EvFault::DropPadChunk { msg: i, chunk: j },
         EvFault::BoardNotInstalled,
         EvFault::UnknownBank { name: r.pick(&["XXXX", "C09W", "CBF1", "SEQ2", "B09G", "PC9", "c09A", "C99A", "PC98", "ATAX", "", "Cé1", "C09AA"]).to_string() },
-        EvFault::MalformedWire { i },
-        EvFault::MalformedPad { msg: i },
-        EvFault::MalformedTrg,
+        EvFault::MalformedWire { i, variant: 0 },
+        EvFault::MalformedPad { msg: i, variant: 0 },
+        EvFault::MalformedTrg { variant: 0 },
+        EvFault::MalformedWire { i, variant: 1 + (j % 10) as u8 },
+        EvFault::MalformedWire { i: j, variant: 1 + (i % 10) as u8 },
+        EvFault::MalformedPad { msg: i, variant: 1 + (j % 6) as u8 },
+        EvFault::MalformedPad { msg: j, variant: 7 + (i % 8) as u8 },
+        EvFault::MalformedPad { msg: i + 1, variant: 5 + (j % 2) as u8 },
+        EvFault::MalformedTrg { variant: 1 + (j % 8) as u8 },
+        EvFault::MalformedTrg { variant: 1 + (i % 8) as u8 },
+        EvFault::PadPayloadIdentity { msg: i, other: j, board: true, chip: j % 2 == 0, short: false },
+        EvFault::PadPayloadIdentity { msg: i, other: j, board: i % 2 == 0, chip: true, short: true },
+        EvFault::PadPayloadIdentity { msg: j, other: j, board: true, chip: false, short: i % 2 == 0 },
     ]
 }
 
@@ -548,7 +702,7 @@ impl Check for C10Check {
         "fault_enumeration"
     }
     fn rule(&self) -> String {
-        "scenario = a base event of well-formed packets (seeded subset of the 8x32 (board, ADC channel) pairs - across scenarios all 256, periodically all at once - and of the installed (PWB board, chip) groups with 1..72 pad channels plus reset/FPN channels; waveform lengths around the run's delay; suppression on/off; fully suppressed 16-byte packets; BV/TRB3/MCVX banks that must be ignored) under one of 15 run-number configurations (simulation, every calibration/map range boundary +-1, runs without maps), with either no fault or ONE inconsistency from the exhaustive list {rename wire bank (channel/board), swap two wire payloads, duplicate wire bank (identical / short copy / suppressed copy, copy first or last), drop TRG, two TRG, BV channel in a C bank (full / 16-byte form), suppressed packet under another channel's name, rename pad bank, swap pad payloads across boards, duplicate / drop a pad chunk, pad data of a board not installed for the run, unknown bank name (13 spellings), malformed wire / pad / TRG payload}; every (event, fault) is built under 3 arrival orders x 2 hash keys by the real try_from_banks. Waveforms carry a channel-unique signature so a wrong slot or delay is attributable. Oracle: the reference event assembler (statement of C10 as code; slots from the probed public maps; calibration parsed by the harness from the shipped files); all 256 wire and 18432 pad slots and the timestamp are compared through the cfg(alpha_g_verif) accessors. Non-trivial = at least one real build; distinct = distinct event-log hashes (bank bytes, order, outcome).".into()
+        "scenario = a base event of well-formed packets (seeded subset of the 8x32 (board, ADC channel) pairs - across scenarios all 256, periodically all at once - and of the installed (PWB board, chip) groups with 1..72 pad channels plus reset/FPN channels; waveform lengths around the run's delay; suppression on/off; fully suppressed 16-byte packets; BV/TRB3/MCVX banks that must be ignored) under one of 15 run-number configurations (simulation, every calibration/map range boundary +-1, runs without maps), with either no fault or ONE inconsistency from the exhaustive list {rename wire bank (channel/board), swap two wire payloads, duplicate wire bank (identical / short copy / suppressed copy, copy first or last), drop TRG, two TRG, BV channel in a C bank (full / 16-byte form), suppressed packet under another channel's name, rename pad bank, swap pad payloads across boards, duplicate / drop a pad chunk, pad data of a board not installed for the run, PWB packet inside the chunks naming another board/chip than its chunk headers and bank names (also a second message's identity, so that two messages claim the same pads; long or delay-short), unknown bank name (13 spellings), malformed wire / pad / TRG payload in 11 / 15 / 9 CRC- and baseline-valid ways (unknown MAC in any byte, reserved bytes, version/type/module, keep_last, sample counts, masks, chip letter, end marker, TRG marks, reserved words, counter ordering, truncation)}; every (event, fault) is built under 3 arrival orders x 2 hash keys by the real try_from_banks. Waveforms carry a channel-unique signature so a wrong slot or delay is attributable. Oracle: the reference event assembler (statement of C10 as code; slots from the probed public maps; calibration parsed by the harness from the shipped files); all 256 wire and 18432 pad slots and the timestamp are compared through the cfg(alpha_g_verif) accessors. Non-trivial = at least one real build; distinct = distinct event-log hashes (bank bytes, order, outcome).".into()
     }
     fn assumptions(&self) -> Vec<String> {
         vec![
@@ -565,12 +719,12 @@ impl Check for C10Check {
     }
     fn count(&self, tier: Tier) -> u64 {
         match tier {
-            Tier::Quick => 46 * 23 + 172,
-            Tier::Thorough => 2000 * 23 + 6000,
+            Tier::Quick => 46 * 33 + 172,
+            Tier::Thorough => 2000 * 33 + 6000,
         }
     }
     fn generate(&self, seed: u64, index: u64, tier: Tier) -> Value {
-        let n_faulted = if tier == Tier::Quick { 46 * 23 } else { 2000 * 23 };
+        let n_faulted = if tier == Tier::Quick { 46 * 33 } else { 2000 * 33 };
         if index >= n_faulted {
             // consistent events only, on run numbers that have every map and calibration: the
             // positive half of the statement (right slot, right calibration) over all 256 wires
@@ -591,9 +745,9 @@ impl Check for C10Check {
             let scn = Scn { base, fault: None, order_seeds: vec![0, r.next_u64() | 2], hash_keys: vec![r.next_u64()] };
             return serde_json::to_value(scn).unwrap();
         }
-        // base event k = index / 23, fault slot = index % 23 (0 = none)
-        let k = index / 23;
-        let slot = (index % 23) as usize;
+        // base event k = index / 33, fault slot = index % 33 (0 = none)
+        let k = index / 33;
+        let slot = (index % 33) as usize;
         let base_seed = simcore::run_seed(simcore::driver::verif_seed(), "C10-base", k);
         let mut rb = Rng::new(base_seed);
         let run = RUNS[(k % RUNS.len() as u64) as usize];
